@@ -11,7 +11,7 @@ Inductive rd : Type :=
 | RPhylip (o : popts)
 | RFasta
 | RNewick
-| RNexus (fix_link fix_positions : bool).
+| RNexus (fx : nfix).
 
 (* what the harness saw *)
 Inductive xobs : Type :=
@@ -44,10 +44,10 @@ Definition model_obs (c : case) (k : Z) : option xobs :=
     let parse_len := fun s => if existsb (Tokenizer.str_eqb s) (c_floats c) then Some tt else None in
     Some (match read_newick unit parse_len ascii_lower default_ropts [] text with
           | Ok (trees, _) => XTrees (Z.of_nat (length trees)) | Err e => XErr e | OutOfFuel => XErr Hang end)
-  | RNexus fl fp =>
+  | RNexus fx =>
     let is_float := fun s => existsb (Tokenizer.str_eqb s) (c_floats c) in
     let sym_ok := fun ch => match sym ch with Some _ => true | None => false end in
-    match nexus_read ascii_upper ascii_lower ascii_dval sym_ok is_float fl fp text with
+    match nexus_read ascii_upper ascii_lower ascii_dval sym_ok is_float fx text with
     | ROk _ => Some XOk
     | RErr e => Some (XErr e)
     | RFuel => Some (XErr Hang)
@@ -67,7 +67,7 @@ Definition xobs_eqb (a b : xobs) : bool :=
   | _, _ => false
   end.
 
-Definition is_nexus (r : rd) : bool := match r with RNexus _ _ => true | _ => false end.
+Definition is_nexus (r : rd) : bool := match r with RNexus _ => true | _ => false end.
 
 Definition check_one (c : case) (ke : Z * xobs) : bool :=
   let '(k, e) := ke in
